@@ -535,10 +535,55 @@ def asciiCheck (T : MsTables) (enc : PStr) (b : Nat) : Bool :=
       s.all (fun c => 0x20 ≤ c && c < 0x7F && c != 38)
   | none => false
 
-/-- every byte converts under a carrier codec once a mode is set -/
+/-- evaluate a predicate on every (index, entry) of a 256-entry table in one pass -/
+def tableAll (t : List (Option Nat)) (P : Nat → Option Nat → Bool) : Bool :=
+  t.length == 256 && t.zipIdx.all fun vi => P vi.2 vi.1
+
+theorem tableAll_spec (t : List (Option Nat)) (P : Nat → Option Nat → Bool) (h : tableAll t P = true) (b : Nat) (hb : b < 256) :
+    P b (tableByte t b) = true := by
+  unfold tableAll at h
+  simp only [Bool.and_eq_true, beq_iff_eq, List.all_eq_true] at h
+  obtain ⟨hl, hall⟩ := h
+  have hlt : b < t.length := by omega
+  have hm : (t[b], b) ∈ t.zipIdx := by
+    rw [List.mem_zipIdx_iff_getElem?]
+    simp [hlt]
+  have := hall _ hm
+  simp only at this
+  unfold tableByte
+  simp [List.getElem?_eq_getElem hlt, this]
+
+/-- a byte outside 0x80–0x9F is converted by the codec's table alone, whatever the mode -/
+theorem convertWith_nonsmart (T : MsTables) (enc : PStr) (t : List (Option Nat)) (mode : Mode) (b : Nat)
+    (hc : codecOf enc = some (.table t)) (hs : isSmart b = false) :
+    convertWith T enc mode false [b] = (tableByte t b).map ([·]) := by
+  unfold convertWith
+  simp only [hc, Bool.false_eq_true, if_false, decodeStrict]
+  have : substituteWith T mode [b] = [b] := by simp [substituteWith, hs]
+  split <;> (try rw [this]) <;> (simp only [decodeTable]; cases tableByte t b <;> rfl)
+
+/-- every byte converts under a carrier codec once a mode is set (bytes outside 0x80–0x9F: the table
+    defines them; `convertWith_nonsmart`) -/
 def totalCheck (T : MsTables) (mode : Mode) (enc : PStr) : Bool :=
-  (match codecOf enc with | some (.table _) => true | _ => false) &&
-  (List.range 256).all fun b => (convertWith T enc mode false [b]).isSome
+  match codecOf enc with
+  | some (.table t) =>
+    tableAll t fun b v => if isSmart b then (convertWith T enc mode false [b]).isSome else v.isSome
+  | _ => false
+
+theorem totalCheck_spec (T : MsTables) (mode : Mode) (enc : PStr) (h : totalCheck T mode enc = true) (b : Nat) (hb : b < 256) :
+    (∃ t, codecOf enc = some (.table t)) ∧ (convertWith T enc mode false [b]).isSome = true := by
+  unfold totalCheck at h
+  split at h
+  · rename_i t ht
+    refine ⟨⟨t, ht⟩, ?_⟩
+    have := tableAll_spec t _ h b hb
+    by_cases hs : isSmart b = true
+    · simpa [hs] using this
+    · have hs' : isSmart b = false := by simpa using hs
+      simp only [hs', Bool.false_eq_true, if_false] at this
+      rw [convertWith_nonsmart T enc t mode b ht hs']
+      simpa using this
+  · exact absurd h (by simp)
 
 theorem all_smart {P : Nat → Bool} (h : smartBytes.all P = true) (b : Nat) (hb : isSmart b = true) : P b = true :=
   List.all_eq_true.mp h b (isSmart_mem b hb)
@@ -603,30 +648,65 @@ theorem flatMap_ext {α β} (l : List α) (f g : α → List β) (h : ∀ x ∈ 
   | cons a l ih => simp [List.flatMap_cons, h a (by simp), ih (fun x hx => h x (by simp [hx]))]
 
 /-! ### the candidate loop -/
-theorem dedup_head (a : PStr) (acc l : List PStr) :
-    ∃ tl, l.foldl (fun acc e => if acc.contains e then acc else acc ++ [e]) (a :: acc) = a :: tl := by
-  induction l generalizing acc with
+theorem dedupLower_head (a : PStr) (acc : List PStr) (seen : List PStr) (l : List PStr) :
+    ∃ tl, (l.foldl (fun (acc : List PStr × List PStr) e =>
+      if acc.2.contains (asciiLower e) then acc else (acc.1 ++ [e], acc.2 ++ [asciiLower e])) (a :: acc, seen)).1 = a :: tl := by
+  induction l generalizing acc seen with
   | nil => exact ⟨acc, rfl⟩
   | cons e l ih =>
     simp only [List.foldl_cons]
     split
-    · exact ih acc
-    · exact ih (acc ++ [e])
+    · exact ih acc seen
+    · exact ih (acc ++ [e]) _
 
-theorem candidates_head (enc : PStr) (rest : List PStr) : ∃ tl, candidates (enc :: rest) = enc :: tl := by
-  unfold candidates
+/-- the first known encoding is the first candidate, whatever BOM or declaration there is -/
+theorem detectorEncodings_head (enc : PStr) (rest : List PStr) (sniffed declared : Option PStr) :
+    ∃ tl, detectorEncodings (enc :: rest) sniffed declared = enc :: tl := by
+  unfold detectorEncodings
   simp only [List.cons_append, List.foldl_cons, List.contains_nil, Bool.false_eq_true, if_false, List.nil_append]
-  exact dedup_head enc [] _
+  exact dedupLower_head enc [] _ _
 
-/-- when the first known encoding converts to a non-empty string, that is `unicode_markup` -/
-theorem unicodeMarkupWith_first (T : MsTables) (enc : PStr) (rest : List PStr) (mode : Mode) (markup : Bytes) (u : PStr)
-    (h : convertWith T enc mode false markup = some u) (hu : u ≠ []) :
-    unicodeMarkupWith T (enc :: rest) mode markup = (some u, false) := by
-  obtain ⟨tl, htl⟩ := candidates_head enc rest
-  unfold unicodeMarkupWith
-  simp only [htl, firstPass, h]
-  have : u.isEmpty = false := by cases u <;> simp_all
-  simp [this]
+/-- a successful conversion by a codec the model decodes is `.ok` -/
+theorem attempt_ok (T : MsTables) (r : PStr) (mode : Mode) (data : Bytes) (u : PStr)
+    (h : convertWith T r mode false data = some u) : attempt T r mode false data = .ok u := by
+  unfold attempt
+  by_cases hd : data = []
+  · subst hd
+    simp only [if_true]
+    unfold convertWith at h
+    cases hco : codecOf r with
+    | none => simp [hco] at h
+    | some c =>
+      simp only [hco, Bool.false_eq_true, if_false] at h
+      have hs : substituteWith T mode [] = [] := rfl
+      cases c <;> (split at h <;> simp_all [decodeStrict, decodeTable, decodeUtf8])
+  simp only [hd, if_false]
+  have hc : (codecOf r).isSome = true := by
+    unfold convertWith at h
+    cases hco : codecOf r with
+    | none => simp [hco] at h
+    | some c => rfl
+  unfold codecOf at hc
+  split <;> simp_all
+
+/-- when the first known encoding is found by `find_codec` and converts, that conversion is the result:
+    no later candidate (BOM, declaration, utf-8, windows-1252) is consulted -/
+theorem unicodeDammitWith_first (T : MsTables) (enc r : PStr) (rest : List PStr) (declared : Option PStr) (mode : Mode)
+    (markup : Bytes) (u : PStr) (hne : markup ≠ []) (hf : findCodec enc = some r)
+    (h : convertWith T r mode false (stripBom markup).1 = some u) :
+    unicodeDammitWith T (enc :: rest) declared mode markup = .ok u false (some r) := by
+  unfold unicodeDammitWith
+  simp only [hne, if_false]
+  obtain ⟨tl, htl⟩ := detectorEncodings_head enc rest (stripBom markup).2 declared
+  simp only [htl, pass1, convertFromSt, hf, List.contains_nil, Bool.false_eq_true, if_false, List.nil_append,
+    attempt_ok T r mode _ u h]
+
+theorem runCallsFrom_eq_map (st : ProcState) (cs : List DammitCall) : runCallsFrom st cs = cs.map runCall := by
+  induction cs generalizing st with
+  | nil => rfl
+  | cons c cs ih => simp [runCallsFrom, stepCall, ih]
+
+theorem runCalls_eq_map (cs : List DammitCall) : runCalls cs = cs.map runCall := runCallsFrom_eq_map _ cs
 
 /-! ### the strict decoder accepts exactly the encodings of scalar values -/
 theorem enc2 (b0 b1 : Nat) (h0 : 194 ≤ b0) (h0' : b0 ≤ 223) (h1 : 128 ≤ b1) (h1' : b1 ≤ 191) :
@@ -721,6 +801,438 @@ theorem decodeUtf8_sound (bs : Bytes) (s : PStr) (h : decodeUtf8 bs = some s) :
   | case10 => simp at h
   | case11 => simp at h
   | case12 => simp at h
+
+/-! ### standards-based notion of an embedded Windows-1252 byte -/
+
+/-- A byte that can stand for a Windows-1252 character inside UTF-8 text: ≥ 0x80, defined by
+    Windows-1252 (CPython's cp1252), and not a possible UTF-8 lead byte (C2–F4: those are read as UTF-8).
+    Fixed by the two standards, not by the library's tables. -/
+def Embeddable (b : Nat) : Prop := 0x80 ≤ b ∧ ¬ (0xC2 ≤ b ∧ b ≤ 0xF4) ∧ (cp1252At b).isSome = true
+
+instance : DecidablePred Embeddable := fun b => by unfold Embeddable; exact inferInstance
+
+/-- Decidable whole-range obligation: every embeddable byte is not taken as a lead byte and is mapped to
+    the UTF-8 of its cp1252 character; every byte the scan converts is embeddable. -/
+def Cfg.embedCheck (c : Cfg) : Bool :=
+  Gen.Detwingle.cp1252.length == 256 &&
+  (List.range 256).all fun b =>
+    if Embeddable b then
+      !c.isMarker b &&
+      (match cp1252At b with
+       | some ch => c.conv? b == some (encodeUtf8 ch) && decide (IsScalar ch)
+       | none => false)
+    else c.isMarker b || (c.conv? b).isNone
+
+theorem cp1252At_lt (b : Nat) (hl : Gen.Detwingle.cp1252.length = 256) (h : (cp1252At b).isSome = true) : b < 256 := by
+  unfold cp1252At tableByte at h
+  cases hg : Gen.Detwingle.cp1252[b]? with
+  | none => simp [hg] at h
+  | some x =>
+    have := (List.getElem?_eq_some_iff.mp hg).1
+    omega
+
+theorem Cfg.embed_of_check (c : Cfg) (h : c.embedCheck = true) (b : Nat) (hb : Embeddable b) :
+    c.isMarker b = false ∧ ∃ ch, cp1252At b = some ch ∧ IsScalar ch ∧ c.conv? b = some (encodeUtf8 ch) := by
+  unfold Cfg.embedCheck at h
+  simp only [Bool.and_eq_true, beq_iff_eq] at h
+  obtain ⟨hl, hall⟩ := h
+  rw [List.all_eq_true] at hall
+  have hlt := cp1252At_lt b hl hb.2.2
+  have := hall b (by simp; omega)
+  simp only [hb, if_true, Bool.and_eq_true, Bool.not_eq_true'] at this
+  obtain ⟨hm, hrest⟩ := this
+  refine ⟨hm, ?_⟩
+  split at hrest
+  · rename_i ch hch
+    simp only [Bool.and_eq_true, beq_iff_eq, decide_eq_true_eq] at hrest
+    exact ⟨ch, hch, hrest.2, hrest.1⟩
+  · exact absurd hrest (by simp)
+
+/-- conversely: whatever the scan converts is an embeddable byte -/
+theorem Cfg.convertible_embeddable (c : Cfg) (h : c.embedCheck = true) (hk : c.table.all (fun kv => kv.1 < 256) = true)
+    (b : Nat) (hb : c.Convertible b) : Embeddable b := by
+  unfold Cfg.embedCheck at h
+  simp only [Bool.and_eq_true, beq_iff_eq] at h
+  obtain ⟨_, hall⟩ := h
+  rw [List.all_eq_true] at hall
+  obtain ⟨hm, hc⟩ := hb
+  obtain ⟨v, hv⟩ := Option.isSome_iff_exists.mp hc
+  have hlt : b < 256 := by
+    unfold Cfg.conv? at hv
+    split at hv
+    · exact lookup_key_lt c.table 256 hk b v hv
+    · simp at hv
+  have := hall b (by simp; omega)
+  by_cases he : Embeddable b
+  · exact he
+  · simp only [he, if_false, hm, hv, Bool.false_or] at this
+    simp at this
+
+/-! ### what the scan does to an arbitrary byte list -/
+
+/-- `out` is `bs` with some of its convertible bytes replaced by their table value — nothing is dropped,
+    reordered or otherwise altered. -/
+inductive Replaced (c : Cfg) : Bytes → Bytes → Prop
+  | nil : Replaced c [] []
+  | keep (b : Nat) {bs out : Bytes} : Replaced c bs out → Replaced c (b :: bs) (b :: out)
+  | conv (b : Nat) (rep : Bytes) {bs out : Bytes} : c.isMarker b = false → c.conv? b = some rep →
+      Replaced c bs out → Replaced c (b :: bs) (rep ++ out)
+
+theorem scan_replaced (c : Cfg) (k : Nat) (bs out : Bytes) (h : scan c k bs = some out) : Replaced c bs out := by
+  induction bs generalizing k out with
+  | nil => simp [scan] at h; subst h; exact .nil
+  | cons b rest ih =>
+    cases k with
+    | succ k =>
+      simp only [scan] at h
+      cases hr : scan c k rest with
+      | none => simp [hr] at h
+      | some o => simp only [hr, Option.map_some, Option.some.injEq] at h; subst h; exact .keep b (ih k o hr)
+    | zero =>
+      unfold scan at h
+      split at h
+      · split at h
+        · rename_i n _
+          cases hr : scan c n rest with
+          | none => simp [hr] at h
+          | some o => simp only [hr, Option.map_some, Option.some.injEq] at h; subst h; exact .keep b (ih n o hr)
+        · simp at h
+      · rename_i hm
+        split at h
+        · rename_i rep hrep
+          cases hr : scan c 0 rest with
+          | none => simp [hr] at h
+          | some o =>
+            simp only [hr, Option.map_some, Option.some.injEq] at h; subst h
+            exact .conv b rep (by simpa using hm) hrep (ih 0 o hr)
+        · cases hr : scan c 0 rest with
+          | none => simp [hr] at h
+          | some o => simp only [hr, Option.map_some, Option.some.injEq] at h; subst h; exact .keep b (ih 0 o hr)
+
+/-- every table value the scan can emit is itself stepped over unchanged by the scan -/
+def Cfg.SelfInert (c : Cfg) : Prop :=
+  ∀ b rep, c.isMarker b = false → c.conv? b = some rep → ∀ r, scan c 0 (rep ++ r) = (scan c 0 r).map (rep ++ ·)
+
+theorem scan_idem (c : Cfg) (hi : c.SelfInert) (k : Nat) (bs out : Bytes) (h : scan c k bs = some out) :
+    scan c k out = some out := by
+  induction bs generalizing k out with
+  | nil => simp [scan] at h; subst h; simp [scan]
+  | cons b rest ih =>
+    cases k with
+    | succ k =>
+      simp only [scan] at h
+      cases hr : scan c k rest with
+      | none => simp [hr] at h
+      | some o =>
+        simp only [hr, Option.map_some, Option.some.injEq] at h; subst h
+        simp [scan, ih k o hr]
+    | zero =>
+      unfold scan at h
+      split at h
+      · rename_i hm
+        split at h
+        · rename_i n hn
+          cases hr : scan c n rest with
+          | none => simp [hr] at h
+          | some o =>
+            simp only [hr, Option.map_some, Option.some.injEq] at h; subst h
+            simp [scan, hm, hn, ih n o hr]
+        · simp at h
+      · rename_i hm
+        split at h
+        · rename_i rep hrep
+          cases hr : scan c 0 rest with
+          | none => simp [hr] at h
+          | some o =>
+            simp only [hr, Option.map_some, Option.some.injEq] at h; subst h
+            rw [hi b rep (by simpa using hm) hrep o, ih 0 o hr]; rfl
+        · rename_i hc
+          cases hr : scan c 0 rest with
+          | none => simp [hr] at h
+          | some o =>
+            simp only [hr, Option.map_some, Option.some.injEq] at h; subst h
+            simp [scan, hm, hc, ih 0 o hr]
+
+/-- shape of the encoding of a non-ASCII scalar value -/
+theorem encode_lead (ch : Nat) (h : IsScalar ch) (hge : ¬ ch < 0x80) :
+    ∃ lead tl, encodeUtf8 ch = lead :: tl ∧ 0xC2 ≤ lead ∧ lead ≤ 0xF4 ∧ tl.length + 1 = stdSize lead := by
+  unfold IsScalar at h
+  unfold encodeUtf8
+  rw [if_neg hge]
+  split
+  · refine ⟨_, _, rfl, by omega, by omega, ?_⟩
+    unfold stdSize; rw [if_pos (by omega)]; rfl
+  · split
+    · refine ⟨_, _, rfl, by omega, by omega, ?_⟩
+      unfold stdSize; rw [if_neg (by omega), if_pos (by omega)]; rfl
+    · refine ⟨_, _, rfl, by omega, by omega, ?_⟩
+      unfold stdSize; rw [if_neg (by omega), if_neg (by omega), if_pos (by omega)]; rfl
+
+/-- what a successful strict decoding says about the first byte -/
+theorem decode_head (b : Nat) (l : Bytes) (t : PStr) (h : decodeUtf8 (b :: l) = some t) :
+    ∃ ch t' l', IsScalar ch ∧ t = ch :: t' ∧ b :: l = encodeUtf8 ch ++ l' ∧ decodeUtf8 l' = some t' ∧
+      ((ch < 0x80 ∧ b = ch) ∨ (0xC2 ≤ b ∧ b ≤ 0xF4 ∧ (encodeUtf8 ch).length = stdSize b)) := by
+  obtain ⟨h1, h2⟩ := decodeUtf8_sound _ _ h
+  cases t with
+  | nil => simp [utf8] at h1
+  | cons ch t' =>
+    have hsc := h2 ch (by simp)
+    have ht' : ∀ x ∈ t', IsScalar x := fun x hx => h2 x (by simp [hx])
+    have hu : utf8 (ch :: t') = encodeUtf8 ch ++ utf8 t' := by simp [utf8]
+    rw [hu] at h1
+    refine ⟨ch, t', utf8 t', hsc, rfl, h1, decodeUtf8_utf8 t' ht', ?_⟩
+    by_cases hlt : ch < 0x80
+    · left
+      have : encodeUtf8 ch = [ch] := by simp [encodeUtf8, hlt]
+      rw [this] at h1
+      simp only [List.cons_append, List.nil_append, List.cons.injEq] at h1
+      exact ⟨hlt, h1.1⟩
+    · right
+      obtain ⟨lead, tl, he, g1, g2, g3⟩ := encode_lead ch hsc hlt
+      rw [he] at h1
+      simp only [List.cons_append, List.cons.injEq] at h1
+      rw [h1.1, he]
+      exact ⟨g1, g2, by simp [g3]⟩
+
+/-- what the property needs from the class attributes to characterise when the output is valid UTF-8 -/
+structure Cfg.Exact (c : Cfg) : Prop where
+  sound : c.Sound
+  marker_range : ∀ b, c.isMarker b = true → 0xC2 ≤ b ∧ b ≤ 0xF4
+  conv_ok : ∀ b, c.Convertible b → ∃ ch, IsScalar ch ∧ c.conv? b = some (encodeUtf8 ch)
+
+def Piece.Good (c : Cfg) : Piece → Prop
+  | .ch x => IsScalar x
+  | .emb b => c.Convertible b
+
+theorem scan_valid_inv (c : Cfg) (hx : c.Exact) (n : Nat) : ∀ (bs out : Bytes) (t : PStr), bs.length ≤ n →
+    scan c 0 bs = some out → decodeUtf8 out = some t →
+    ∃ ps : List Piece, (∀ p ∈ ps, p.Good c) ∧ bs = ps.flatMap Piece.src := by
+  induction n with
+  | zero =>
+    intro bs out t hl _ _
+    have : bs = [] := by cases bs <;> simp_all
+    exact ⟨[], by simp, by simp [this]⟩
+  | succ n ih =>
+    intro bs out t hl hs hd
+    cases bs with
+    | nil => exact ⟨[], by simp, by simp⟩
+    | cons b rest =>
+      have hl' : rest.length ≤ n := by simpa using hl
+      by_cases hm : c.isMarker b = true
+      · -- a lead byte: the announced bytes are copied
+        obtain ⟨r1, r2⟩ := hx.marker_range b hm
+        have hsz := (hx.sound.lead b r1 r2).2
+        have hpos : ∃ k, stdSize b = k + 1 := by
+          unfold stdSize; split
+          · exact ⟨1, rfl⟩
+          · split
+            · exact ⟨2, rfl⟩
+            · split
+              · exact ⟨3, rfl⟩
+              · omega
+        obtain ⟨k, hk⟩ := hpos
+        rw [hk] at hsz
+        simp only [scan, hm, if_true, hsz] at hs
+        rw [scan_take_drop c k rest, Option.map_map] at hs
+        cases hr : scan c 0 (rest.drop k) with
+        | none => simp [hr] at hs
+        | some o =>
+          simp only [hr, Option.map_some, Option.some.injEq, Function.comp] at hs
+          subst hs
+          obtain ⟨ch, t', l', hsc, _, hsplit, hdl, hcase⟩ := decode_head b _ t hd
+          rcases hcase with ⟨hlt, hbe⟩ | ⟨_, _, hlen⟩
+          · omega
+          · -- the character occupies exactly b and the k copied bytes
+            have hfull : (rest.take k).length = k := by
+              by_cases hk' : k ≤ rest.length
+              · simp [hk']
+              · have hdrop : rest.drop k = [] := List.drop_of_length_le (by omega)
+                rw [hdrop] at hr
+                simp [scan] at hr
+                subst hr
+                have := congrArg List.length hsplit
+                simp only [List.length_cons, List.length_append, List.length_take, List.append_nil] at this
+                rw [hlen, hk] at this
+                omega
+            have hsplit' : (b :: rest.take k) ++ o = encodeUtf8 ch ++ l' := by simpa using hsplit
+            have hlen' : (b :: rest.take k).length = (encodeUtf8 ch).length := by
+              rw [hlen, hk]; simp [hfull]
+            obtain ⟨e1, e2⟩ := List.append_inj hsplit' hlen'
+            subst e2
+            obtain ⟨ps, hps, hbs⟩ := ih (rest.drop k) o t' (by simp; omega) hr hdl
+            refine ⟨.ch ch :: ps, ?_, ?_⟩
+            · intro p hp
+              simp only [List.mem_cons] at hp
+              rcases hp with rfl | hp
+              · exact hsc
+              · exact hps p hp
+            · simp only [List.flatMap_cons, Piece.src, ← e1, ← hbs, List.cons_append, List.take_append_drop]
+      · have hm' : c.isMarker b = false := by simpa using hm
+        cases hc : c.conv? b with
+        | some rep =>
+          have hconv : c.Convertible b := ⟨hm', by simp [hc]⟩
+          obtain ⟨ch, hsc, hrep⟩ := hx.conv_ok b hconv
+          rw [hc] at hrep
+          simp only [Option.some.injEq] at hrep
+          subst hrep
+          rw [scan_conv c b _ rest hm' hc] at hs
+          cases hr : scan c 0 rest with
+          | none => simp [hr] at hs
+          | some o =>
+            simp only [hr, Option.map_some, Option.some.injEq] at hs
+            subst hs
+            rw [decodeUtf8_encode ch hsc] at hd
+            cases hdo : decodeUtf8 o with
+            | none => simp [hdo] at hd
+            | some t' =>
+              obtain ⟨ps, hps, hbs⟩ := ih rest o t' hl' hr hdo
+              refine ⟨.emb b :: ps, ?_, ?_⟩
+              · intro p hp
+                simp only [List.mem_cons] at hp
+                rcases hp with rfl | hp
+                · exact hconv
+                · exact hps p hp
+              · simp [List.flatMap_cons, Piece.src, ← hbs]
+        | none =>
+          rw [scan_plain c b rest hm' hc] at hs
+          cases hr : scan c 0 rest with
+          | none => simp [hr] at hs
+          | some o =>
+            simp only [hr, Option.map_some, Option.some.injEq] at hs
+            subst hs
+            obtain ⟨ch, t', l', hsc, _, hsplit, hdl, hcase⟩ := decode_head b o t hd
+            rcases hcase with ⟨hlt, hbe⟩ | ⟨r1, r2, _⟩
+            · subst hbe
+              have he : encodeUtf8 b = [b] := by simp [encodeUtf8, hlt]
+              rw [he] at hsplit
+              simp only [List.cons_append, List.nil_append, List.cons.injEq, true_and] at hsplit
+              subst hsplit
+              obtain ⟨ps, hps, hbs⟩ := ih rest o t' hl' hr hdl
+              refine ⟨.ch b :: ps, ?_, ?_⟩
+              · intro p hp
+                simp only [List.mem_cons] at hp
+                rcases hp with rfl | hp
+                · exact hsc
+                · exact hps p hp
+              · simp [List.flatMap_cons, Piece.src, he, ← hbs]
+            · have := (hx.sound.lead b r1 r2).1
+              rw [hm'] at this; exact absurd this (by simp)
+
+theorem Cfg.selfInert_of_exact (c : Cfg) (hx : c.Exact) : c.SelfInert := by
+  intro b rep hm hc r
+  obtain ⟨ch, hsc, hrep⟩ := hx.conv_ok b ⟨hm, by simp [hc]⟩
+  rw [hc] at hrep
+  simp only [Option.some.injEq] at hrep
+  subst hrep
+  exact scan_char c hx.sound ch (scalar_lt hsc) r
+
+theorem marker_range_of (c : Cfg) (h1 : c.first = 0xC2) (h2 : c.last = 0xF4) (b : Nat) (hb : c.isMarker b = true) :
+    0xC2 ≤ b ∧ b ≤ 0xF4 := by
+  unfold Cfg.isMarker at hb
+  simp only [Bool.and_eq_true, decide_eq_true_eq] at hb
+  omega
+
+/-! ### un-escaping whole strings -/
+theorem go_plain (p r : PStr) (h : ∀ x ∈ p, x ≠ 38) : unescapeGo none (p ++ r) = p ++ unescapeGo none r := by
+  induction p with
+  | nil => rfl
+  | cons c p ih =>
+    have hc : c ≠ 38 := h c (by simp)
+    simp only [List.cons_append, unescapeGo, hc, if_false, ih (fun x hx => h x (by simp [hx]))]
+
+theorem go_body (buf body r : PStr) (h : ∀ x ∈ body, x ≠ 38 ∧ x ≠ 59) :
+    unescapeGo (some buf) (body ++ r) = unescapeGo (some (buf ++ body)) r := by
+  induction body generalizing buf with
+  | nil => simp
+  | cons c body ih =>
+    obtain ⟨h1, h2⟩ := h c (by simp)
+    simp only [List.cons_append, unescapeGo, h1, h2, if_false]
+    rw [ih (buf ++ [c]) (fun x hx => h x (by simp [hx]))]
+    simp
+
+/-- a well-formed reference in front of anything is replaced by what it denotes -/
+theorem go_ref (body r : PStr) (ch : Nat) (h : ∀ x ∈ body, x ≠ 38 ∧ x ≠ 59)
+    (hu : unescapeRef (38 :: body ++ [59]) = some ch) :
+    unescapeGo none ((38 :: body ++ [59]) ++ r) = ch :: unescapeGo none r := by
+  have : (38 :: body ++ [59]) ++ r = 38 :: (body ++ (59 :: r)) := by simp
+  rw [this]
+  simp only [unescapeGo, if_true]
+  rw [go_body [38] body (59 :: r) h]
+  simp only [unescapeGo, if_true]
+  have e : [38] ++ body ++ [59] = 38 :: body ++ [59] := by simp
+  rw [e, hu]
+
+/-- decidable per-byte obligation behind the whole-string un-escaping theorem -/
+def unescCheck (T : MsTables) (mode : Mode) (enc : PStr) (b : Nat) (v : Option Nat) : Bool :=
+  if isSmart b then
+    match cp1252At b with
+    | some ch =>
+      match convertWith T enc mode false [b] with
+      | some p =>
+        let body := (p.drop 1).dropLast
+        p == 38 :: body ++ [59] && body.all (fun x => x != 38 && x != 59) && unescapeRef p == some ch
+      | none => false
+    | none => true
+  else if b = 38 then true
+  else
+    match v with
+    | some c => c != 38
+    | none => false
+
+/-- the character the property assigns to a byte of the input: Windows-1252 for 0x80–0x9F, the carrier
+    codec for everything else -/
+def meantChar (t : List (Option Nat)) (b : Nat) : Nat :=
+  if isSmart b then (cp1252At b).getD 0xFFFD else (tableByte t b).getD 0xFFFD
+
+theorem unescape_flatten (T : MsTables) (mode : Mode) (enc : PStr) (t : List (Option Nat))
+    (htab : codecOf enc = some (.table t))
+    (hall : tableAll t (unescCheck T mode enc) = true) (markup : Bytes)
+    (h : ∀ b ∈ markup, b < 256 ∧ b ≠ 38 ∧ (isSmart b = true → (cp1252At b).isSome = true)) :
+    unescapeGo none ((markup.map fun b => (convertWith T enc mode false [b]).getD []).flatten) = markup.map (meantChar t) := by
+  induction markup with
+  | nil => rfl
+  | cons b rest ih =>
+    obtain ⟨hlt, h38, hdef⟩ := h b (by simp)
+    have ih := ih (fun x hx => h x (by simp [hx]))
+    have hc := tableAll_spec t _ hall b hlt
+    simp only [List.map_cons, List.flatten_cons]
+    unfold unescCheck at hc
+    by_cases hs : isSmart b = true
+    · obtain ⟨ch, hch⟩ := Option.isSome_iff_exists.mp (hdef hs)
+      simp only [hs, if_true, hch] at hc
+      split at hc
+      · rename_i p hp
+        simp only [Bool.and_eq_true, beq_iff_eq, List.all_eq_true, bne_iff_ne, ne_eq] at hc
+        obtain ⟨⟨hshape, hbody⟩, hun⟩ := hc
+        rw [hp, Option.getD_some, hshape]
+        rw [hshape] at hun
+        rw [go_ref _ _ ch (fun x hx => hbody x hx) hun, ih]
+        simp [meantChar, hs, hch]
+      · exact absurd hc (by simp)
+    · simp only [hs, Bool.false_eq_true, if_false, h38] at hc
+      split at hc
+      · rename_i c hcb
+        simp only [bne_iff_ne, ne_eq] at hc
+        rw [convertWith_nonsmart T enc t mode b htab (by simpa using hs), hcb]
+        simp only [Option.map_some, Option.getD_some]
+        rw [go_plain [c] _ (by simp [hc]), ih]
+        simp [meantChar, hs, hcb]
+      · exact absurd hc (by simp)
+
+/-- table obligation for all carriers at once -/
+def unescCheckAll (T : MsTables) (mode : Mode) : Bool :=
+  carriers.all fun enc =>
+    match codecOf enc with
+    | some (.table t) => tableAll t (unescCheck T mode enc)
+    | _ => false
+
+theorem decodeTable_map (t : List (Option Nat)) (bs : Bytes) (h : ∀ b ∈ bs, (tableByte t b).isSome = true) :
+    decodeTable t bs = some (bs.map fun b => (tableByte t b).getD 0xFFFD) := by
+  induction bs with
+  | nil => rfl
+  | cons b bs ih =>
+    obtain ⟨c, hc⟩ := Option.isSome_iff_exists.mp (h b (by simp))
+    simp [decodeTable, hc, ih (fun x hx => h x (by simp [hx]))]
 
 /-- For closed examples: evaluate both sides with `==` in the kernel (much faster than deciding `=`). -/
 def evalsTo {α} [BEq α] (a b : α) : Bool := a == b
